@@ -139,7 +139,12 @@ func checkBytes(c *codec, b []byte, rep *report) {
 		rep.obs = "ok ?"
 		return
 	}
+	norm := c.normFn()
+	nv, _ := safeStr(norm, v)
 	b2, err := safeEnc(c, v)
+	if nv2, _ := safeStr(norm, v); nv2 != nv {
+		rep.fail(c.name+"-encode-mutates", "encoding changes the value being encoded: %s -> %s (input %s)", trunc(nv, 200), trunc(nv2, 200), trunc(hx.Hex(b), 120))
+	}
 	if err != nil {
 		key := c.name + "-reencode-fails"
 		if _, isPanic := err.(panicErr); isPanic {
@@ -183,8 +188,6 @@ func checkBytes(c *codec, b []byte, rep *report) {
 		rep.fail(c.name+"-reencode-rest", "re-encoding not consumed entirely (%d left): %s", d2.rest, trunc(hx.Hex(b2), 200))
 		return
 	}
-	norm := c.normFn()
-	nv, _ := safeStr(norm, v)
 	sv2, err := safeStr(norm, d2.v)
 	if err != nil || sv2 != nv {
 		rep.fail(c.name+"-reencode-differs", "decode(encode(decode b)) != decode b: b=%s: %s vs %s", trunc(hx.Hex(b), 200), trunc(sv, 200), trunc(sv2, 200))
